@@ -116,6 +116,15 @@ func runInPlainProcess(c *child.Ctx, caseJSON []byte, what string) bool {
 	if _, err := os.Stat(bin); err != nil {
 		return false
 	}
+	return runInSubProcess(c, nil, bin, caseJSON, what)
+}
+
+// runInSubProcess runs one case in a process of the given monitor binary, started
+// through the wrapper command if there is one (the wrapper receives the binary and
+// its arguments as its own last arguments).  A process that ends without reporting
+// is a crash of the case - unless the wrapper itself could not do its job, which it
+// says by printing WRAPPER-UNAVAILABLE (then false is returned and nothing recorded).
+func runInSubProcess(c *child.Ctx, wrapper []string, bin string, caseJSON []byte, what string) bool {
 	f, err := os.CreateTemp(c.WorkDir, "subcase*.json")
 	if err != nil {
 		return false
@@ -141,6 +150,9 @@ func runInPlainProcess(c *child.Ctx, caseJSON []byte, what string) bool {
 	}
 	args = append(args, "-out", os.DevNull, "-cur", os.DevNull)
 	cmd := exec.Command(bin, args...)
+	if len(wrapper) > 0 {
+		cmd = exec.Command(wrapper[0], append(append(append([]string(nil), wrapper[1:]...), bin), args...)...)
+	}
 	cmd.Env = append(os.Environ(), "VMON_SUBCASE="+f.Name())
 	done := make(chan struct{})
 	var out []byte
@@ -152,6 +164,9 @@ func runInPlainProcess(c *child.Ctx, caseJSON []byte, what string) bool {
 		case <-time.After(time.Second):
 			tick() // the work is going on in the other process
 		}
+	}
+	if strings.Contains(string(out), "WRAPPER-UNAVAILABLE") {
+		return false
 	}
 	if !strings.Contains(string(out), "PRELUDE-DONE") {
 		c.Violate("crash", fmt.Sprintf("%s, run in a process of its own, ended abnormally (%v):\n%s", what, err, clipText(string(out))), caseJSON)
@@ -172,7 +187,9 @@ func runInPlainProcess(c *child.Ctx, caseJSON []byte, what string) bool {
 			}
 		}
 	}
-	c.Count("cases_run_in_a_process_without_the_race_detector", 1)
+	if len(wrapper) == 0 {
+		c.Count("cases_run_in_a_process_without_the_race_detector", 1)
+	}
 	return true
 }
 
